@@ -4,7 +4,8 @@
   value holds, the line read back has the same name and the same parameters: a value cannot
   inject structure.
   Property theorems only; helper lemmas and the definitions `NoPlaceholderPair`, `NoPercentCode`,
-  `Hazardless`, `ParamsHazardless`, `pvalStrs`, `lineText`, `special` are in ICal/Lemmas/Line.lean;
+  `Hazardless`, `ParamsHazardless`, `pvalStrs`, `lineText`, `special`, `viaPlaceholders`, `mapPVal`,
+  `readBack`, `rawScan`, `RawBal` are in ICal/Lemmas/Line.lean;
   `ParamDomain`, `canon`, `ValueOk` in ICal/Lemmas/Params.lean (C08).
   `fromParts`, `parts`, `escapeString`, `unescapeString` are the models of Contentline.from_parts,
   Contentline.parts, escape_string, unescape_string, built on the *generated* replace chains and
@@ -26,6 +27,16 @@ theorem escapeString_id (s : Str) (h : NoPlaceholderPair s = true) : escapeStrin
 theorem unescapeString_id (s : Str) (h : NoPercentCode s = true) : unescapeString s = s :=
   ICal.unescapeString_id s h
 
+/-- The hypothesis `NoPlaceholderPair`, said with the standard substring relation `<:+:`. -/
+theorem noPlaceholderPair_iff (s : Str) : NoPlaceholderPair s = true ↔
+    ∀ d, (d = ',' ∨ d = ':' ∨ d = ';' ∨ d = '\\') → ¬ ['\\', d] <:+: s :=
+  ICal.noPlaceholderPair_iff s
+
+/-- The hypothesis `NoPercentCode`, said with the standard substring relation `<:+:`. -/
+theorem noPercentCode_iff (s : Str) : NoPercentCode s = true ↔
+    ¬ ['%', '2', 'C'] <:+: s ∧ ¬ ['%', '3', 'A'] <:+: s ∧ ¬ ['%', '3', 'B'] <:+: s ∧ ¬ ['%', '5', 'C'] <:+: s :=
+  ICal.noPercentCode_iff s
+
 /-- Serialisation is refused for a raw line feed in the value. -/
 theorem lf_refused (n : Str) (p : Params) (v : Str) (sorted : Bool) (h : LF ∈ v) :
     fromParts n p v sorted = .error .assertion := by
@@ -39,9 +50,23 @@ theorem fromParts_succeeds (n : Str) (p : Params) (v : Str) (sorted : Bool) (hn 
     (hp : ParamDomain p) (hv : LF ∉ v) : ∃ l, fromParts n p v sorted = .ok l :=
   ⟨_, fromParts_ok n p v sorted hn hp hv⟩
 
-/-- No injection, strongest form: for EVERY value text `v` (no hazard hypothesis: `;X=1:`, quotes,
-    `%3A`, backslashes, ...) the line splits into exactly the name and the parameters that were
-    joined; only the value text goes through the two placeholder passes (D02/D03 live there). -/
+/-- The split of a joined line, for EVERY value text `v` and EVERY parameter map of the domain
+    (values may hold backslashes, `%XX`, `;X=1:` ...; no hazard hypothesis at all): the name is the
+    name written, the parameters are those written — same names, sorted, every value string sent
+    through `viaPlaceholders` = `unescape_string ∘ escape_string` (`readBack`) — and the value
+    text is `viaPlaceholders v`. D02 and D03 are exactly the fact that `viaPlaceholders` is not
+    the identity; nothing else of the line can change. -/
+theorem parts_fromParts_any (n : Str) (p : Params) (v : Str) (hn : validToken n = true)
+    (hp : ParamDomain p) (hv : LF ∉ v) :
+    ∃ l, fromParts n p v true = .ok l ∧ parts l = some (n, readBack p, viaPlaceholders v) :=
+  ⟨_, fromParts_ok n p v true hn hp hv, parts_lineText_any n p v hn hp⟩
+
+/-- `viaPlaceholders` is the identity on hazard-free text. -/
+theorem viaPlaceholders_id (x : Str) (h : Hazardless x) : viaPlaceholders x = x :=
+  ICal.viaPlaceholders_id x h
+
+/-- No injection from the value: for EVERY value text `v` the line splits into exactly the name
+    and the parameters that were joined (parameter values hazard-free). -/
 theorem value_cannot_inject (n : Str) (p : Params) (v : Str) (hn : validToken n = true)
     (hp : ParamDomain p) (hpz : ParamsHazardless p) (hv : LF ∉ v) :
     ∃ l, fromParts n p v true = .ok l ∧
@@ -65,13 +90,25 @@ theorem parts_fromParts_noparams (n v : Str) (hn : validToken n = true) (hv : LF
   rw [ICal.escapeString_id v hz.1, ICal.unescapeString_id v hz.2] at h2
   exact ⟨h1, h2⟩
 
-/-- The name read back is the name written, whatever the value text is. -/
-theorem name_preserved (n : Str) (p : Params) (v : Str) (hn : validToken n = true)
-    (hp : ParamDomain p) (hpz : ParamsHazardless p) :
+/-- The full-strength statement (no hazard hypotheses) is FALSE of the code: D03. -/
+def parts_fromParts_full : Prop :=
+  ∀ (n : Str) (p : Params) (v : Str), validToken n = true → ParamDomain p → LF ∉ v →
+    ∃ l, fromParts n p v true = .ok l ∧ parts l = some (n, canon p, v)
+
+theorem parts_fromParts_full_refuted : ¬ parts_fromParts_full := by
+  intro h
+  obtain ⟨l, h1, h2⟩ := h ['U', 'R', 'L'] [] ['5', '0', '%', '2', 'C'] (by decide) (by decide) (by decide)
+  rw [fromParts_eq] at h1
+  rw [mkLine_inv _ _ h1] at h2
+  revert h2
+  decide
+
+/-- The name read back is the name written, whatever the value text and the parameter values are. -/
+theorem name_preserved (n : Str) (p : Params) (v : Str) (hn : validToken n = true) (hp : ParamDomain p) :
     ∀ l, fromParts n p v = .ok l → ∀ n' p' v', parts l = some (n', p', v') → n' = n := by
   intro l hl n' p' v' hparts
   rw [fromParts_eq] at hl
-  rw [mkLine_inv _ _ hl, parts_lineText n p v hn hp hpz] at hparts
+  rw [mkLine_inv _ _ hl, parts_lineText_any n p v hn hp] at hparts
   injection hparts with h
   exact (congrArg Prod.fst h).symm
 
@@ -80,20 +117,48 @@ theorem no_param_injection_noparams (n v : Str) (hn : validToken n = true) :
     ∀ l, fromParts n [] v = .ok l → ∀ n' p' v', parts l = some (n', p', v') → p' = [] := by
   intro l hl n' p' v' hparts
   rw [fromParts_eq] at hl
-  rw [mkLine_inv _ _ hl, parts_lineText n [] v hn (by decide) (by decide)] at hparts
+  rw [mkLine_inv _ _ hl, parts_lineText_any n [] v hn (by decide)] at hparts
   injection hparts with h
   exact (congrArg (fun t => t.2.1) h).symm
 
-/-- The parameters read back are the parameters written (sorted, `canon`), whatever the value
-    text is. -/
+/-- No parameter is added, lost or renamed, whatever the value text and whatever the parameter
+    values (any strings of the C08 value domain: backslashes, `%XX`, delimiters): the names read
+    back are the names written, in sorted order, and each value is the written value sent through
+    `viaPlaceholders` string by string. -/
+theorem no_param_injection (n : Str) (p : Params) (v : Str) (hn : validToken n = true) (hp : ParamDomain p) :
+    ∀ l, fromParts n p v = .ok l → ∀ n' p' v', parts l = some (n', p', v') →
+      p' = readBack p ∧ p'.map Prod.fst = (canon p).map Prod.fst ∧
+      (p'.map Prod.fst).Perm (p.map Prod.fst) ∧ p'.length = p.length := by
+  intro l hl n' p' v' hparts
+  rw [fromParts_eq] at hl
+  rw [mkLine_inv _ _ hl, parts_lineText_any n p v hn hp] at hparts
+  injection hparts with h
+  have e : p' = readBack p := (congrArg (fun t => t.2.1) h).symm
+  subst e
+  refine ⟨rfl, readBack_keys p, ?_, ?_⟩
+  · rw [readBack_keys, canon_keys]
+    exact (sortByKey_perm p).map Prod.fst
+  · have := congrArg List.length (readBack_keys p)
+    simpa [canon_length] using this
+
+/-- With hazard-free parameter values the parameters read back are exactly those written
+    (sorted, `canon`), whatever the value text is. -/
 theorem no_param_injection_hazardless (n : Str) (p : Params) (v : Str) (hn : validToken n = true)
     (hp : ParamDomain p) (hpz : ParamsHazardless p) :
     ∀ l, fromParts n p v = .ok l → ∀ n' p' v', parts l = some (n', p', v') → p' = canon p := by
   intro l hl n' p' v' hparts
+  rw [← readBack_hazardless p hpz]
+  exact (no_param_injection n p v hn hp l hl n' p' v' hparts).1
+
+/-- `raw_value()` — the route TEXT values take since the D02 repair — returns the value text
+    exactly as it was written, for EVERY value text and every parameter map of the domain: on
+    this route the join/split inverse on the value needs no hazard hypothesis. -/
+theorem rawValue_fromParts (n : Str) (p : Params) (v : Str) (sorted : Bool) (hn : validToken n = true)
+    (hp : ParamDomain p) : ∀ l, fromParts n p v sorted = .ok l → rawValue l = v := by
+  intro l hl
   rw [fromParts_eq] at hl
-  rw [mkLine_inv _ _ hl, parts_lineText n p v hn hp hpz] at hparts
-  injection hparts with h
-  exact (congrArg (fun t => t.2.1) h).symm
+  rw [mkLine_inv _ _ hl]
+  exact rawValue_lineText n p v sorted hn hp
 
 /-! Witnesses of the recorded defects (why `Hazardless` is a hypothesis of the value equalities). -/
 
@@ -113,8 +178,8 @@ theorem witness_D02_param :
       some (['X'], [(['K'], .one ['a', ';', 'b'])], ['v']) := by
   decide
 
-/-! Non-vacuity: the hypotheses are satisfiable, and the hostile value of the informal statement
-    is covered by `value_cannot_inject`. -/
+/-! Non-vacuity: the hypotheses are satisfiable; a hostile value text (`;Y=1:"`) and hostile
+    parameter values are inside the domain of the injection theorems. -/
 example : validToken ['X', '-', 'A'] = true := by decide
 example : ParamDomain sampleParams ∧ ParamsHazardless sampleParams := by decide
 example : Hazardless "a;X=1:b\"c,%2 \\n\\".toList ∧ LF ∉ "a;X=1:b\"c,%2 \\n\\".toList := by decide
@@ -124,5 +189,14 @@ example : fromParts ['X', '-', 'A'] sampleParams ";Y=1:\"".toList =
 example : parts "X-A;A.1=one;CN=\"x,;: y\";E=;X-B=\"a,b\",c;Z_=,:;Y=1:\"".toList =
     some (['X', '-', 'A'], canon sampleParams, ";Y=1:\"".toList) := by decide
 example : fromParts ['A'] [] ['x', '\n'] = .error .assertion := by rfl
+example : rawValue "X;K=\"a\\;L=1:b%3A\";M=\"x\\\\\",\";Y=2:\":a\\\\,b%2C".toList = "a\\\\,b%2C".toList := by decide
+/-- a map of the domain with hostile values: not hazard-free, covered by `no_param_injection` -/
+example : ParamDomain hostileParams ∧ ¬ ParamsHazardless hostileParams := by decide
+example : fromParts ['X'] hostileParams ['v'] = .ok "X;K=\"a\\;L=1:b%3A\";M=\"x\\\",\";Y=2:\":v".toList := by rfl
+example : readBack hostileParams =
+    [(['K'], .one "a;L=1:b:".toList), (['M'], .many ["x\\".toList, ";Y=2:".toList])] := by decide
+example : parts "X;K=\"a\\;L=1:b%3A\";M=\"x\\\",\";Y=2:\":v".toList =
+    some (['X'], [(['K'], .one "a;L=1:b:".toList), (['M'], .many ["x\\".toList, ";Y=2:".toList])], ['v']) := by
+  decide
 
 end ICal.C05
